@@ -5,3 +5,6 @@ import PGV.Props.C20
 #print axioms PGV.Props.C20.C20_object
 #print axioms PGV.Props.C20.C20_elements
 #print axioms PGV.Props.C20.C20_entries
+#print axioms PGV.Props.C20.C20_output_parses
+#print axioms PGV.Props.C20.C20_parse_print
+#print axioms PGV.Props.C20.C20_integers_wellformed
